@@ -260,6 +260,13 @@ type DecScript struct {
 	Cuts    [][]int  `json:"cuts"`   // per block: fragment sizes for Write
 	MaxSize uint32   `json:"max_size"`
 	MaxStr  int      `json:"max_str,omitempty"` // >0: SetMaxStringLength on every decoder (the HTTP/2 framer always sets one)
+	// EmitOff[i] >= 0: while block i is decoded the emit callback switches emission off after that many fields
+	// (SetEmitEnabled(false), as the HTTP/2 framer does once a header list is too long or a field is invalid);
+	// emission is switched on again for the next block. The dynamic table must not notice.
+	EmitOff []int `json:"emit_off,omitempty"`
+	// HelperFirst: the exported helper HuffmanDecodeToString is called before the decoders are used (it shares
+	// a buffer pool with them)
+	HelperFirst bool `json:"helper_first,omitempty"`
 }
 
 var colDec = vstat.New("C18", "c18.decode")
@@ -394,7 +401,13 @@ func genDec(t *rapid.T) DecScript {
 			cuts = rapid.SliceOfN(rapid.IntRange(1, 9), 1, 6).Draw(t, "cuts")
 		}
 		s.Cuts = append(s.Cuts, cuts)
+		eo := -1
+		if rapid.IntRange(0, 4).Draw(t, "emitoff") == 0 {
+			eo = rapid.IntRange(0, 3).Draw(t, "emitoffAfter")
+		}
+		s.EmitOff = append(s.EmitOff, eo)
 	}
+	s.HelperFirst = rapid.IntRange(0, 3).Draw(t, "helper") == 0
 	return s
 }
 
@@ -404,8 +417,17 @@ type emitted struct {
 }
 
 // runReal feeds one block in fragments to the real decoder and closes it.
-func runReal(d *rh.Decoder, block []byte, cuts []int) (out []emitted, err error) {
-	d.SetEmitFunc(func(f rh.HeaderField) { out = append(out, emitted{f.Name, f.Value, f.Sensitive}) })
+func runReal(d *rh.Decoder, block []byte, cuts []int, emitOff int) (out []emitted, err error) {
+	d.SetEmitEnabled(true)
+	d.SetEmitFunc(func(f rh.HeaderField) {
+		out = append(out, emitted{f.Name, f.Value, f.Sensitive})
+		if emitOff >= 0 && len(out) >= emitOff {
+			d.SetEmitEnabled(false)
+		}
+	})
+	if emitOff == 0 {
+		d.SetEmitEnabled(false)
+	}
 	rest := block
 	i := 0
 	for len(rest) > 0 {
@@ -463,6 +485,11 @@ func execDec(s DecScript) (v *vstat.Violation, classes []string) {
 	frag := rh.NewDecoder(s.MaxSize, nil)  // fed in fragments
 	prist := xh.NewDecoder(s.MaxSize, nil) // pristine x/net copy, block-at-once
 	ref := hpackref.NewDecoder(s.MaxSize)
+	if s.HelperFirst {
+		// (returns its buffer to the pool the decoders draw from)
+		rh.HuffmanDecodeToString(xh.AppendHuffmanString(nil, "left over from some other caller of the package"))
+		classes = append(classes, "huffman-helper-called-first")
+	}
 	if s.MaxStr > 0 {
 		whole.SetMaxStringLength(s.MaxStr)
 		frag.SetMaxStringLength(s.MaxStr)
@@ -471,8 +498,51 @@ func execDec(s DecScript) (v *vstat.Violation, classes []string) {
 	}
 	for i, b := range s.Blocks {
 		r := ref.Decode(b)
-		w, werr := runReal(whole, b, nil)
-		f, ferr := runReal(frag, b, s.Cuts[i])
+		eo := -1
+		if i < len(s.EmitOff) {
+			eo = s.EmitOff[i]
+		}
+		w, werr := runReal(whole, b, nil, eo)
+		f, ferr := runReal(frag, b, s.Cuts[i], eo)
+		if eo >= 0 {
+			// with emission off the decoder may skip strings it need not keep (and so not notice a defect in
+			// them); what it must still do is keep the dynamic table exactly as if emission were on
+			classes = append(classes, "emission-switched-off-mid-block")
+			if (werr == nil) != (ferr == nil) || fmt.Sprint(w) != fmt.Sprint(f) {
+				return vstat.Violf("decode|fragmentation-changes-result", "block %d %x (emission off after %d fields): whole -> %d fields err=%v; fragments %v -> %d fields err=%v", i, b, eo, len(w), werr, s.Cuts[i], len(f), ferr), classes
+			}
+			prist = nil
+			if r.Err != nil || r.Loose || werr != nil {
+				break
+			}
+			var want []emitted
+			for _, x := range r.Fields {
+				want = append(want, emitted{x.Name, x.Value, x.Sensitive})
+			}
+			if len(want) > eo {
+				want = want[:max(eo, 0)]
+			}
+			if eo == 0 {
+				want = nil
+			}
+			if fmt.Sprint(w) != fmt.Sprint(want) {
+				return vstat.Violf("decode|fields-differ-from-rfc-reference", "block %d %x (emission off after %d fields): decoder emitted %v, reference prefix %v", i, b, eo, w, want), classes
+			}
+			whole.SetEmitEnabled(true)
+			tab, err := probeTable(whole)
+			if err != nil {
+				return vstat.Violf("decode|table-probe-failed", "block %d: %v", i, err), classes
+			}
+			if len(tab) != len(ref.Dyn) {
+				return vstat.Violf("decode|table-differs-from-reference", "block %d %x (emission off after %d fields): table has %d entries, reference %d", i, b, eo, len(tab), len(ref.Dyn)), classes
+			}
+			for j := range tab {
+				if tab[j].Name != ref.Dyn[j].Name || tab[j].Value != ref.Dyn[j].Value {
+					return vstat.Violf("decode|table-differs-from-reference", "block %d %x (emission off after %d fields): table entry %d is %q=%q, reference %q=%q", i, b, eo, j, tab[j].Name, tab[j].Value, ref.Dyn[j].Name, ref.Dyn[j].Value), classes
+				}
+			}
+			continue
+		}
 		var p []emitted
 		var perr error
 		if prist != nil {
